@@ -31,7 +31,7 @@ def random_script(rng, i):
             ops.append(["stale_disconnect", rng.choice(sorted(conn))])
         if persistent and x < 0.10:
             # dial progress / reconnection timer of persistent peers
-            ops.append(rng.choice([["attempted", rng.choice(persistent)], ["wake", rng.choice([4000, 70000])]]))
+            ops.append(rng.choice([["attempted", rng.choice(persistent)], ["wake", rng.choice([4000, 70000])], ["dialfail", rng.choice(persistent)]]))
         elif x < 0.15 or not conn:
             cand = [p for p in range(1, npeers + 1) if p not in conn]
             if cand:
@@ -82,15 +82,16 @@ def run(ctx):
     thorough = ctx.tier == "thorough"
     ctx.build(ENGINE)
     cfg = "MCFetchSched_t.cfg" if thorough else "MCFetchSched_q.cfg"
-    res = ctx.tlc("MCFetchSched", cfg, workers=8, timeout=3000 if thorough else 600, coverage=True, heap="8g",
+    res = ctx.tlc("MCFetchSched", cfg, workers=1, timeout=3000 if thorough else 600, coverage=True, heap="8g",
                   label="design model, exhaustive: C16_OneLive, C16_TableIsLive, C16_Capacity, C16_SessionConsistent, C16_Attribution (deviations disabled)")
     ctx.tlc_ok(res, "MCFetchSched")
     if res.violated:
         ctx.violation(f"model:{res.violated}", "the design model violates the invariant", {"tlc": res.error_trace[:120]})
         return ctx.finish(rule=RULE)
-    ctx.require_coverage(res, ["Attempt", "Connect", "Disconnect", "StaleDisconnect", "FetchCmd", "AnnFetch", "Wake", "Done"])
-    for name, cfgd, inv in (("late-same-peer", "MCFetchSched_dev1.cfg", "C16_Attribution"), ("late-any-peer", "MCFetchSched_dev2.cfg", "C16_OneLive")):
-        dev = ctx.tlc("MCFetchSched", cfgd, workers=8, timeout=900, coverage=False, count=False, heap="8g",
+    ctx.require_coverage(res, ["Attempt", "Connect", "Disconnect", "StaleDisconnect", "DialFail", "FetchCmd", "AnnFetch", "Wake", "Done"])
+    for name, cfgd, inv in (("late-same-peer", "MCFetchSched_dev1.cfg", "C16_Attribution"), ("late-any-peer", "MCFetchSched_dev2.cfg", "C16_OneLive"),
+                            ("stale-link", "MCFetchSched_dev3.cfg", "SessionHasConnection")):
+        dev = ctx.tlc("MCFetchSched", cfgd, workers=1, timeout=900, coverage=False, count=False, heap="8g",
                       label=f"sanity: deviation {name} must violate {inv}")
         if dev.violated != inv:
             raise vlib.ToolError(f"sanity run: deviation {name} was not rejected by TLC ({dev.violated})")
